@@ -21,6 +21,7 @@ import (
 	"sort"
 	"strings"
 	"sync"
+	"sync/atomic"
 	"time"
 
 	bs "github.com/danthegoodman1/bloomsearch"
@@ -164,6 +165,8 @@ type c14File struct {
 	ptr   string
 	rows  []int
 	there bool
+	flush bool // written by a flush (not a merge output)
+	acked bool // an acknowledgement covering its rows was delivered (done channel, or a Flush that returned nil)
 }
 
 type c14Query struct {
@@ -210,6 +213,49 @@ type c14Run struct {
 	scanKind string
 	scanFile int
 	bad     []string
+
+	ingMu       sync.Mutex
+	ingested    []int       // rows whose IngestRows call has returned, in order
+	ackOnlyTry  bool        // the ingest actor is handing an ack-only request (no buffered rows) to the flush queue
+	barrierSet  atomic.Bool // the scripted Flush barrier is settled: it returned, or it sits in the flush queue
+	barrierOpen atomic.Bool // a scripted barrier Flush has been called and has not returned
+}
+
+// ackLabels: an acknowledgement covering these rows was delivered (the batch's done channel
+// received nil, or a Flush called after their IngestRows returned nil: Flush's contract).
+// The model's LFAck f is the FIRST acknowledgement that covers flush file f. Baton holder only.
+func (h *c14Run) ackLabels(rows []int) []string {
+	cov := map[int]bool{}
+	for _, id := range rows {
+		cov[id] = true
+		h.acked[id] = true
+	}
+	inFile := map[int]bool{}
+	var labels []string
+	for i, f := range h.files {
+		if !f.flush {
+			continue
+		}
+		all := len(f.rows) > 0
+		for _, id := range f.rows {
+			inFile[id] = true
+			all = all && cov[id]
+		}
+		if all && !f.acked {
+			f.acked = true
+			labels = append(labels, fmt.Sprintf("LFAck %d", i))
+		}
+	}
+	var homeless []int
+	for _, id := range rows {
+		if !inFile[id] {
+			homeless = append(homeless, id)
+		}
+	}
+	if len(homeless) > 0 {
+		h.bad = append(h.bad, fmt.Sprintf("rows %v were acknowledged before any file was created for them", homeless))
+	}
+	return labels
 }
 
 func (h *c14Run) fileOf(ptr []byte) int {
@@ -274,7 +320,7 @@ func (d *c14Data) CreateFile(ctx context.Context) (io.WriteCloser, []byte, error
 			h.merges = append(h.merges, h.merge)
 			return []string{fmt.Sprintf("LMStart %s", coqNatList(srcs)), fmt.Sprintf("LMCreate [%s]", coqNatList(rows))}
 		}
-		h.files = append(h.files, &c14File{ptr: string(ptr), rows: append([]int(nil), h.flushRows...)})
+		h.files = append(h.files, &c14File{ptr: string(ptr), rows: append([]int(nil), h.flushRows...), flush: true})
 		h.flushFile = file
 		return []string{fmt.Sprintf("LFCreate [%s]", coqNatList(h.flushRows))}
 	})
@@ -505,6 +551,16 @@ func (h *c14Run) onPause(point string, a int64) {
 
 // event sink: learns which file the parse step is about
 func (h *c14Run) onEvent(e bs.VerifEvent) {
+	switch e.Kind {
+	case "fq.try":
+		h.ackOnlyTry = e.A > 0 && e.B == 0
+	case "fq.sent":
+		if h.ackOnlyTry && h.barrierOpen.Load() {
+			// the barrier Flush is queued behind the flush in flight: it cannot return before that one is done
+			h.barrierSet.Store(true)
+		}
+		h.ackOnlyTry = false
+	}
 	if e.Kind == "fs.scan.file" && h.scanOpen && filepath.Dir(e.S) == h.dir && curGoroutineID() == h.scanGid {
 		h.scanFile = h.fileOf([]byte(e.S))
 	}
@@ -568,7 +624,13 @@ type c14Plan struct {
 	queries int
 	merges  int
 	flushes int
-	holds   func(h *c14Run) []c14Hold
+	// barriers: Flush calls by a caller of its own, each a barrier: a nil return acknowledges every row
+	// whose IngestRows returned before the call. Random runs call them at random steps.
+	barriers int
+	// scripted: one Flush is called while a flush sits between its writer's Close and its
+	// MetaStore.Update; the query starts once that Flush has returned or is queued behind the flush
+	barrierInWindow bool
+	holds           func(h *c14Run) []c14Hold
 }
 
 func c14Plans() []c14Plan {
@@ -603,8 +665,19 @@ func c14Plans() []c14Plan {
 					{match: func(t *c14Task) bool { return isQ(t) && (t.kind == "open" || t.kind == "parse") }, until: func(s *c14Sched) bool { return s.count("flush:ack") >= 1 }},
 				}
 			}},
-		{name: "random", initial: 3, queries: 3, merges: 2, flushes: 2},
-		{name: "random", initial: 4, queries: 2, merges: 1, flushes: 3},
+		{name: "flush-barrier-in-commit-window", initial: 2, queries: 1, flushes: 1, barrierInWindow: true,
+			holds: func(h *c14Run) []c14Hold {
+				return []c14Hold{
+					// the concurrent flush stops between its Close and its MetaStore.Update until the query is over
+					{match: func(t *c14Task) bool {
+						return t.actor == "flush" && t.kind == "update" && h.sched.count("flush:update") >= 2
+					}, until: func(s *c14Sched) bool { return s.count("q0:end") > 0 }},
+					// the query starts when the barrier Flush has returned (and its acknowledgement is logged) or is queued
+					{match: func(t *c14Task) bool { return isQ(t) && t.kind == "start" }, until: func(s *c14Sched) bool { return h.barrierSet.Load() }},
+				}
+			}},
+		{name: "random", initial: 3, queries: 3, merges: 2, flushes: 2, barriers: 2},
+		{name: "random", initial: 4, queries: 2, merges: 1, flushes: 3, barriers: 3},
 	}
 }
 
@@ -617,8 +690,10 @@ func runC14(c *Ctx) {
 		}
 	}()
 	c.rep.Rule = "concurrent runs on both MetaStores (MemoryMetaStore; FileSystemDataStore as MetaStore), FileSystemDataStore as DataStore: 2-4 acknowledged files, then 1-3 queries x 0-2 merges x 0-3 flushes " +
-		"under a cooperative scheduler in which every store-level action is one step; four scripted windows (query between a merge's publish and its Update; snapshot/listing, then a whole merge, then the reads; reads interleaved with the source removal; flush and ack during a query) " +
-		"and randomly scheduled runs; plus two direct probes of MemoryMetaStore (Update between yields of a running iterator; Update attempted while the snapshot holds the read lock). " +
+		"under a cooperative scheduler in which every store-level action is one step; five scripted windows (query between a merge's publish and its Update; snapshot/listing, then a whole merge, then the reads; reads interleaved with the source removal; flush and ack during a query; " +
+		"a Flush barrier called while a flush sits between its writer's Close and its MetaStore.Update, then a whole query, then the Update) " +
+		"and randomly scheduled runs with 2-3 Flush barriers at random steps; acknowledgements = nil on the batch's done channel, or (a third of the batches have none) Flush returning nil, or a barrier Flush returning nil (it covers every row whose IngestRows had returned); " +
+		"plus two direct probes of MemoryMetaStore (Update between yields of a running iterator; Update attempted while the snapshot holds the read lock). " +
 		"Per run: log = run of Model/MetaStores.v, per query rows/error/yielded files = the model's, and: nil error => acknowledged-before-start rows exactly once, nothing not ingested. " +
 		"Non-trivial: a query that overlaps a merge or a flush step. Distinct by log text."
 	scratch := filepath.Join(c.Out, "fs14")
@@ -753,6 +828,8 @@ func c14Scenario(c *Ctx, sh *shard, dir string, n int, p c14Plan, fsMeta bool) {
 		flushMu.Lock()
 		defer flushMu.Unlock()
 		k := 1 + c14pick(h, 3)
+		// the batch's own done channel, or none at all: then the only acknowledgement is Flush returning nil
+		withDone := c14pick(h, 3) > 0
 		batch := make([]map[string]any, k)
 		var ids []int
 		for j := range batch {
@@ -762,58 +839,93 @@ func c14Scenario(c *Ctx, sh *shard, dir string, n int, p c14Plan, fsMeta bool) {
 			nextRow++
 		}
 		h.flushRows = ids
-		done := make(chan error, 1)
-		must(eng.IngestRows(bg, batch, done))
-		go eng.Flush(bg)
-		if err := <-done; err != nil {
-			h.bad = append(h.bad, "flush failed: "+err.Error())
+		var ferr error
+		if withDone {
+			done := make(chan error, 1)
+			must(eng.IngestRows(bg, batch, done))
+			h.ingMu.Lock()
+			h.ingested = append(h.ingested, ids...)
+			h.ingMu.Unlock()
+			go eng.Flush(bg)
+			ferr = <-done
+		} else {
+			must(eng.IngestRows(bg, batch, nil))
+			h.ingMu.Lock()
+			h.ingested = append(h.ingested, ids...)
+			h.ingMu.Unlock()
+			ferr = eng.Flush(bg)
+		}
+		if ferr != nil {
+			h.bad = append(h.bad, "flush failed: "+ferr.Error())
 			return
 		}
 		h.sched.do("flush", "ack", func() []string {
-			for _, id := range ids {
-				h.acked[id] = true
-			}
-			return []string{fmt.Sprintf("LFAck %d", h.flushFile)}
+			c.dist("c14_ack", map[bool]string{true: "done channel", false: "Flush return (nil done channel)"}[withDone])
+			return h.ackLabels(ids)
+		})
+	}
+	// barrierOnce: Flush by a caller of its own. A nil return acknowledges every row whose IngestRows had returned.
+	barrierOnce := func() {
+		h.ingMu.Lock()
+		covered := append([]int(nil), h.ingested...)
+		h.ingMu.Unlock()
+		if err := eng.Flush(bg); err != nil {
+			h.bad = append(h.bad, "barrier Flush failed: "+err.Error())
+			return
+		}
+		h.sched.do("barrier", "ack", func() []string {
+			c.dist("c14_ack", "barrier Flush return")
+			return h.ackLabels(covered)
 		})
 	}
 	for i := 0; i < p.initial; i++ {
 		flushOnce()
 	}
+	var barrierAt []int // steps (counted from here) at which the barrier caller calls Flush
+	for i := 0; i < p.barriers; i++ {
+		barrierAt = append(barrierAt, c14pick(h, 30))
+	}
+	sort.Ints(barrierAt)
 	var wg sync.WaitGroup
 	for qi := 0; qi < p.queries; qi++ {
 		q := &c14Query{id: qi}
 		h.queries = append(h.queries, q)
 	}
-	for qi := 0; qi < p.queries; qi++ {
-		q := h.queries[qi]
-		wg.Add(1)
-		go func() {
-			defer wg.Done()
-			actor := fmt.Sprintf("q%d", q.id)
-			h.sched.do(actor, "start", func() []string {
-				q.startStep = len(h.sched.log)
-				q.acked0 = map[int]bool{}
-				for id := range h.acked {
-					q.acked0[id] = true
+	startQueries := func() {
+		for qi := 0; qi < p.queries; qi++ {
+			q := h.queries[qi]
+			wg.Add(1)
+			go func() {
+				defer wg.Done()
+				actor := fmt.Sprintf("q%d", q.id)
+				h.sched.do(actor, "start", func() []string {
+					q.startStep = len(h.sched.log)
+					q.acked0 = map[int]bool{}
+					for id := range h.acked {
+						q.acked0[id] = true
+					}
+					return []string{"LQStart"}
+				})
+				res, err := eng.Query(context.WithValue(bg, c14ActorKey{}, actor), bs.NewQuery().Build())
+				must(err)
+				for res.Next() {
+					q.rows = append(q.rows, int(res.Row()["id"].(float64)))
 				}
-				return []string{"LQStart"}
-			})
-			res, err := eng.Query(context.WithValue(bg, c14ActorKey{}, actor), bs.NewQuery().Build())
-			must(err)
-			for res.Next() {
-				q.rows = append(q.rows, int(res.Row()["id"].(float64)))
+				q.err = res.Err()
+				res.Close()
+				h.sched.do(actor, "end", func() []string {
+					q.endStep = len(h.sched.log)
+					return []string{fmt.Sprintf("LQEnd %d", q.id)}
+				})
+			}()
+			// queries get their model ids in start order: start them one after the other
+			for h.sched.count(fmt.Sprintf("q%d:start", q.id)) == 0 {
+				time.Sleep(200 * time.Microsecond)
 			}
-			q.err = res.Err()
-			res.Close()
-			h.sched.do(actor, "end", func() []string {
-				q.endStep = len(h.sched.log)
-				return []string{fmt.Sprintf("LQEnd %d", q.id)}
-			})
-		}()
-		// queries get their model ids in start order: start them one after the other
-		for h.sched.count(fmt.Sprintf("q%d:start", q.id)) == 0 {
-			time.Sleep(200 * time.Microsecond)
 		}
+	}
+	if !p.barrierInWindow {
+		startQueries()
 	}
 	if p.merges > 0 {
 		wg.Add(1)
@@ -844,7 +956,55 @@ func c14Scenario(c *Ctx, sh *shard, dir string, n int, p c14Plan, fsMeta bool) {
 			}
 		}()
 	}
+	stopBarriers := make(chan struct{})
+	barriersDone := make(chan struct{})
+	stepCount := func() int {
+		h.sched.mu.Lock()
+		defer h.sched.mu.Unlock()
+		return len(h.sched.kinds)
+	}
+	// wait until cond holds; false if the other actors finished first
+	waitFor := func(cond func() bool) bool {
+		for !cond() {
+			select {
+			case <-stopBarriers:
+				return false
+			default:
+			}
+			time.Sleep(200 * time.Microsecond)
+		}
+		return true
+	}
+	go func() {
+		defer close(barriersDone)
+		if p.barrierInWindow {
+			// the concurrent flush has closed its writer and waits (held) in front of MetaStore.Update
+			if waitFor(func() bool {
+				h.sched.mu.Lock()
+				defer h.sched.mu.Unlock()
+				return h.sched.count("flush:close") > p.initial
+			}) {
+				h.barrierOpen.Store(true)
+				barrierOnce()
+				h.barrierOpen.Store(false)
+			}
+			h.barrierSet.Store(true)
+			return
+		}
+		base := stepCount()
+		for _, at := range barrierAt {
+			if !waitFor(func() bool { return stepCount() >= base+at }) {
+				return
+			}
+			barrierOnce()
+		}
+	}()
+	if p.barrierInWindow {
+		startQueries()
+	}
 	wg.Wait()
+	close(stopBarriers)
+	<-barriersDone
 	stopCtx, cancel := context.WithTimeout(bg, 10*time.Second)
 	must(eng.Stop(stopCtx))
 	cancel()
